@@ -298,6 +298,48 @@ def run(ctx, info):
         kind, spec = gen_var(r)
         kinds_seen[kind] = kinds_seen.get(kind, 0) + 1
         one_case(ctx, r, kind, spec, k >= n_main, items, metas, stats)
+    # ---- the domain laws at LARGE sizes (decided on the real classes only: a unary literal of that size is no Coq case).  The spacing of doubles exceeds any fixed
+    #      epsilon from some size on (n - 1e-12 == n from n = 16385), so "clip to n - eps, then truncate" leaves the domain only there
+    from pyvolutionary import DiscreteVariable, PermutationVariable, BinaryVariable
+    n_big = 0
+    for n in ([2 ** 13 + 1, 2 ** 14, 2 ** 14 + 1, 20000, 2 ** 17 + 3] if ctx.quick else [2 ** 13 + 1, 2 ** 14, 2 ** 14 + 1, 2 ** 15 + 1, 20000, 2 ** 17 + 3, 2 ** 20 + 1, 3 * 10 ** 6]):
+        var = DiscreteVariable(name="v", choices=list(range(n)))
+        for v in [0, 0.5, -0.5, -1, -1e300, n - 2, n - 1, n - 1 + 1e-12, n - 0.5, float(np.nextafter(n, 0)), n, n + 0.5, n + 1, 2.0 * n, 1e9, 1e300,
+                  np.float32(n), np.float64(n), np.int64(n), np.int64(n - 1)]:
+            n_big += 1
+            meta = {"kind": "disc", "spec": n, "value": repr(v)}
+            try:
+                o = var.correct(v)
+            except Exception as e:
+                ctx.violation("correct-raises:disc", f"disc({n} choices).correct({v!r}) raises {type(e).__name__}", meta); continue
+            if not is_member("disc", n, norm(o)):
+                ctx.violation("correct-not-in-domain:disc", f"disc({n} choices).correct({v!r}) = {o!r} is outside the domain 0..{n - 1}", meta); continue
+            if is_member("disc", n, norm(v)) and int(o) != int(v):
+                ctx.violation("correct-changes-member:disc", f"disc({n} choices).correct({v!r}) = {o!r} changes a member of the domain", meta)
+            try:
+                d = var.decode(o)
+                if d != int(o): ctx.violation("decode-not-declared:disc", f"disc({n} choices).decode({o!r}) = {d!r} is not the declared choice", meta)
+            except Exception as e:
+                ctx.violation("decode-raises:disc", f"disc({n} choices).decode({o!r}) raises {type(e).__name__}", meta)
+        lo_, hi_ = var.get_bounds()
+        if (lo_, hi_) != (0, n - 1) or var.correct(hi_) != n - 1 or var.correct(lo_) != 0:
+            ctx.violation("bounds-not-members:disc", f"disc({n} choices).get_bounds() = {(lo_, hi_)!r}: the bounds are not the first and last index", {"kind": "disc", "spec": n})
+    for n in ([300, 2 ** 14 + 1] if ctx.quick else [300, 2 ** 14 + 1, 2 ** 17 + 3]):
+        var = PermutationVariable(name="v", items=list(range(n)))
+        rs = np.random.RandomState(n)
+        for v in (rs.uniform(-5.0, n + 5.0, n), np.full(n, float(n)), np.arange(n)[::-1].astype(float), rs.randint(0, 3, n).astype(float) * 1e9):
+            n_big += 1
+            meta = {"kind": "perm", "spec": n, "value": f"array of {n} (first {v[:4].tolist()!r})"}
+            try:
+                o = [int(x) for x in var.correct(v.tolist())]
+            except Exception as e:
+                ctx.violation("correct-raises:perm", f"perm({n} items).correct raises {type(e).__name__}", meta); continue
+            if sorted(o) != list(range(n)):
+                ctx.violation("correct-not-in-domain:perm", f"perm({n} items).correct(...) is not a permutation of the indexes", meta); continue
+            d = var.decode(o)
+            if list(d) != o: ctx.violation("decode-inconsistent:perm", f"perm({n} items).decode(correct(...)) is not the items in that order", meta)
+    ctx.add_cover(n_big, n_big, "domain laws at large sizes on the real classes (discrete variables with 8193 .. 3e6 choices at and around both ends of the index range; permutations "
+                  "of up to 131075 items): where an epsilon below the spacing of doubles would be absorbed", [{"sizes": "2^13+1, 2^14, 2^14+1, 20000, 2^17+3 ..."}])
     # ---- random sampling yields members
     n_rand = 300 if ctx.quick else 5000
     for _ in range(n_rand):
